@@ -784,6 +784,10 @@ impl<'a> Tr<'a> {
             return k("()".into());
         }
         let (first, rest) = stmts.split_first().unwrap();
+        // instrumentation that only exists under the verification cfg (hooks, add-only) is not part of the code being modelled
+        if stmt_is_verif_hook(first) {
+            return self.stmts(rest, k);
+        }
         match first {
             Stmt::Local(l) => {
                 if l.init.is_none() {
@@ -1346,6 +1350,27 @@ fn get_map(v: &Value, k: &str) -> Vec<(String, String)> {
         }
     }
     out
+}
+
+/// `#[cfg(flo_curves_verif)]` on a statement: a verification hook
+fn stmt_is_verif_hook(s: &Stmt) -> bool {
+    fn has(attrs: &[Attribute]) -> bool {
+        attrs.iter().any(|a| a.path().is_ident("cfg") && tok(&a.meta).replace(' ', "").contains("cfg(flo_curves_verif)"))
+    }
+    match s {
+        Stmt::Local(l) => has(&l.attrs),
+        Stmt::Macro(m) => has(&m.attrs),
+        Stmt::Expr(e, _) => match e {
+            Expr::Call(x) => has(&x.attrs),
+            Expr::MethodCall(x) => has(&x.attrs),
+            Expr::Block(x) => has(&x.attrs),
+            Expr::If(x) => has(&x.attrs),
+            Expr::Macro(x) => has(&x.attrs),
+            Expr::Assign(x) => has(&x.attrs),
+            _ => false,
+        },
+        _ => false,
+    }
 }
 
 fn main() {
